@@ -20,6 +20,27 @@ type requestStream struct {
 	reader          *bufio.Reader
 	totalBytesRead  int
 	chunkLeft       int
+	// eof is set once the last chunk and the trailer section of a chunked body
+	// have been read.
+	eof bool
+}
+
+// unreadOnWire reports whether bytes of the framed body have not been taken
+// off the connection yet (the prefetched part of a fixed-length body already
+// has been, whether or not the caller read it).
+func (rs *requestStream) unreadOnWire() bool {
+	contentLength := rs.header.ContentLength()
+	if contentLength == -1 {
+		return !rs.eof
+	}
+	if contentLength < 0 {
+		return false
+	}
+	consumed := rs.totalBytesRead
+	if rs.prefetchedBytes != nil {
+		consumed = max(consumed, int(rs.prefetchedBytes.Size()))
+	}
+	return consumed < contentLength
 }
 
 func (rs *requestStream) Read(p []byte) (int, error) {
@@ -43,6 +64,7 @@ func (rs *requestStream) Read(p []byte) (int, error) {
 				if err != nil && err != io.EOF {
 					return 0, err
 				}
+				rs.eof = true
 				return 0, io.EOF
 			}
 			rs.chunkLeft = chunkSize
@@ -103,6 +125,7 @@ func releaseRequestStream(rs *requestStream) {
 	rs.prefetchedBytes = nil
 	rs.totalBytesRead = 0
 	rs.chunkLeft = 0
+	rs.eof = false
 	rs.reader = nil
 	rs.header = nil
 	requestStreamPool.Put(rs)
